@@ -889,8 +889,9 @@ def _check(ctx: Ctx) -> None:
     for c in tail:
         g = next((a for a in ancestors(c) if isinstance(a, ast.If)), None)
         rem_, bt_ = eroles["cur_bar_capacity_remaining"], eroles["cur_time_bar"]
-        if g is not None and src(c.args[0]) == rem_ and f"{bt_} > 0" in src(g.test) and f"{rem_} > 0" in src(g.test) \
-                and isinstance(g.test, ast.BoolOp) and isinstance(g.test.op, ast.And):
+        # (which bars the guard selects is decided by the state model of close_rule below; here: the amount and the sole guard)
+        names_ = {x.id for x in ast.walk(g.test) if isinstance(x, ast.Name)} if g is not None else set()
+        if g is not None and src(c.args[0]) == rem_ and {rem_, bt_} <= names_:
             from ..astutil import extra_conditions
             ok = not extra_conditions(c, g.test)
     ctx.check(ok, "CLOSE", "tokenise: a partly filled last bar is closed with rests up to its capacity", function=fe.qualname,
